@@ -1,5 +1,6 @@
 import Spdc.Real.Optimum
 import Spdc.Real.ComposeAutoLemmas
+import Spdc.Real.ComposeGridLemmas
 /-!
 # C20 — normalised spectra are relative to the optimised setup; optimising is idempotent
 
@@ -282,5 +283,87 @@ example (o : Setup ℝ Unit) (h : tryAsOptimum ext0 s0 = .ok o) :
     (by simp [sx0, Cx.toC, Complex.ext_iff]) (by simp [sx0])
 
 end witness
+
+/-! ## composed model (grid level)
+
+The theorems of T2–T4 above are about an abstract layer below (`SpecExt`).  Below the clause "the
+normalised spectrum of an optimum setup at its own centre equals 1" is proved for the COMPOSED model
+(`Spdc/Model/ComposeGrid.lean`): `jointSpectrum` is `JointSpectrum::new` on a primitive setup, its centre
+value is `√norm · |jsa_raw|` of the composed `try_as_optimum` at the optimum's own centre frequencies
+(computed through every layer, Simpson quadrature), and `jsiNormalized` divides the composed `jsi` by
+its square. -/
+
+/-- composed model, T3 lifted: if `o` is an optimum primitive setup (a fixed point of the composed
+`try_as_optimum`, e.g. any result of it under forward propagation — `compose_optimum_idem`) whose
+centre value is non-zero, then the composed `jsi_normalized` of `o` at its own centre frequencies is
+exactly `1`. -/
+theorem compose_centre_is_one (o : Compose.Setup ℝ) (divs : Nat) (js : Compose.JS ℝ)
+    (hjs : Compose.jointSpectrum o divs = .ok js) (hfix : Compose.asOptimum o = .ok o)
+    (hc : js.jsaCenter ≠ 0) :
+    ∃ i, Compose.idlerBeam o = .ok i ∧
+      js.jsiNormalized (Compose.signalBeam o).frequency i.frequency = .ok 1 := by
+  obtain ⟨hS, hd, o', ho', hcv⟩ := Compose.jointSpectrum_ok hjs
+  rw [hfix] at ho'
+  injection ho' with ho'
+  subst ho'
+  obtain ⟨i, n, r, hi, hn, hr, hcen⟩ := Compose.centreValues_ok hcv
+  simp only at hcen
+  refine ⟨i, hi, ?_⟩
+  have hr0 : r ≠ Cx.zero := by
+    intro h0
+    apply hc
+    rw [hcen, h0]
+    simp [Cx.abs, Cx.zero, Cx.normSq, Transc.sqrt, lit_zero]
+  obtain ⟨J, q, hJ, hq, hrJ⟩ := Compose.jsaRaw_ne_zero hr hr0
+  rw [Compose.jsiNormalizationC_eq hJ] at hn
+  injection hn with hn
+  have hnz : Real.sqrt n ≠ 0 := fun h0 => hc (by rw [hcen, h0, zero_mul])
+  have hnpos : 0 < n := Real.sqrt_pos.mp (lt_of_le_of_ne (Real.sqrt_nonneg n) (Ne.symm hnz))
+  have hjsi : js.jsi (Compose.signalBeam o).frequency i.frequency = .ok (n * r.normSq) := by
+    unfold Compose.JS.jsi
+    rw [hS, hd, Compose.jsi_eq_of_ok hJ hq]
+    congr 1
+    unfold PM.jsi PM.jsiOfRaw
+    rw [← hrJ, hn]
+    have hz : PM.Cx.isZero r = false := by
+      rw [← Bool.not_eq_true]
+      intro hz
+      apply hr0
+      simp only [PM.Cx.isZero, Bool.and_eq_true, PM.isZero_iff] at hz
+      cases r
+      simp only [Cx.zero, lit_zero] at hz ⊢
+      rw [hz.1, hz.2]
+    simp [hz]
+  unfold Compose.JS.jsiNormalized
+  rw [hjsi]
+  simp only [Outcome.map]
+  congr 1
+  rw [hcen]
+  have hns : 0 ≤ r.normSq := by unfold Cx.normSq; nlinarith [mul_self_nonneg r.re, mul_self_nonneg r.im]
+  have habs : r.abs * r.abs = r.normSq := by
+    unfold Cx.abs
+    exact Real.mul_self_sqrt hns
+  have hden : Real.sqrt n * r.abs * (Real.sqrt n * r.abs) = n * r.normSq := by
+    rw [show Real.sqrt n * r.abs * (Real.sqrt n * r.abs)
+      = (Real.sqrt n * Real.sqrt n) * (r.abs * r.abs) by ring, Real.mul_self_sqrt hnpos.le, habs]
+  rw [hden]
+  have hne : n * r.normSq ≠ 0 := by
+    intro h0
+    apply hc
+    rw [hcen]
+    have : Real.sqrt n * r.abs * (Real.sqrt n * r.abs) = 0 := by rw [hden, h0]
+    exact mul_self_eq_zero.mp this
+  exact div_self hne
+
+/-- non-vacuity of the fixed-point hypothesis at the level it can be shown symbolically: every
+result of the composed `try_as_optimum` under forward propagation IS a fixed point -/
+example (S o : Compose.Setup ℝ) (h : Compose.asOptimum S = .ok o) (hfw : S.counterProp = false) :
+    Compose.asOptimum o = .ok o := compose_optimum_idem S o h hfw
+
+/-- non-vacuity of `hjs` and `hfix` together: an optimum primitive setup (fixed point of the composed
+`try_as_optimum`, obtained from the concrete unpoled KTP setup `Compose.exGrid`) with a spectrum object
+exists over ℝ; only `jsaCenter ≠ 0` (a numerical fact about Sellmeier values) is left as a hypothesis -/
+example : ∃ (o : Compose.Setup ℝ) (js : Compose.JS ℝ),
+    Compose.asOptimum o = .ok o ∧ Compose.jointSpectrum o 50 = .ok js := Compose.exGrid_optimum_available
 
 end Spdc.Props.C20
